@@ -61,6 +61,9 @@ def module_bindings():
         ("from-dotdot-mod", "from ..a import X", ["pkg/sub/__init__.py", "pkg/sub/b.py"]),
         ("from-dot-sub", "from .sub import X", ["pkg/__init__.py"]),
         ("from-dot-sub-mod", "from .sub.b import X", ["pkg/__init__.py"]),
+        # the optional-dependency idiom: the import succeeds, the fallback in the `except` / `else` clause never runs
+        ("try-import-fallback", "try:\n    from ext import X\nexcept ImportError:\n    X = None", ALLP),
+        ("if-import-else", "if True:\n    from ext import Y as X\nelse:\n    X = None", ALLP),
     ]
     return m
 
